@@ -4,7 +4,9 @@ namespace Driver.C12
 open MaddyVerif.TimeWheel Driver
 
 /-! `C12 run <u|f> <semCap> <withClose 0|1> <time:budget,…|-> <schedule tokens,…|->`
-schedule tokens: `t<i>.<choice>` `c` `k` `kt` `ku<i>` `ks` `a<d>`. -/
+schedule tokens: `t<i>.<choice>` `c` `k` `kb<kind>` `kt` `ku<i>` `ks` `a<d>`  (`kb<kind>`: the tick goroutine's
+dispatch step of an entry whose message is on disk only, while the spool entry cannot be opened; the
+kind — 1 meta-data missing, 2 meta-data undecodable, 3 header undecodable — matters to the harness only). -/
 
 def parseWho (s : String) : Option Who :=
   let cs := s.toList
@@ -13,6 +15,7 @@ def parseWho (s : String) : Option Who :=
   | ['k'] => some .tick
   | ['k', 't'] => some .tickTimer
   | ['k', 's'] => some .tickStop
+  | 'k' :: 'b' :: rest => (String.ofList rest).toNat?.bind (fun n => if 1 ≤ n ∧ n ≤ 3 then some Who.tickBad else none)
   | 'k' :: 'u' :: rest => (String.ofList rest).toNat?.map Who.tickUpd
   | 'a' :: rest => (String.ofList rest).toNat?.map Who.clock
   | 't' :: rest =>
@@ -36,7 +39,7 @@ def parseProd (s : String) : Option (Nat × Nat) :=
   | _ => none
 
 def pcStr : Pc → String
-  | .acquire => "acquire" | .deliver => "deliver" | .check => "check" | .lock => "lock"
+  | .acquire => "acquire" | .acquireBad => "acquire" | .deliver => "deliver" | .check => "check" | .lock => "lock"
   | .push => "push" | .send => "send" | .release => "release" | .panicRelease => "release"
   | .discard => "discard" | .done => "done" | .panicked => "panicked"
 
@@ -59,6 +62,14 @@ def insertSorted (x : Nat) : List Nat → List Nat
 
 def sortDedup (l : List Nat) : List Nat := l.foldr insertSorted []
 
+def insertPair (x : Nat × Nat) : List (Nat × Nat) → List (Nat × Nat)
+  | [] => [x]
+  | y :: ys => if x.1 < y.1 || (x.1 == y.1 && x.2 ≤ y.2) then x :: y :: ys else y :: insertPair x ys
+
+/-- the wheel content as a multiset: sorted by (message, time) (the real collection may be a list, a
+heap, a map, …) -/
+def sortPairs (l : List (Nat × Nat)) : List (Nat × Nat) := l.foldr insertPair []
+
 def joinOr (l : List String) : String := if l.isEmpty then "-" else ",".intercalate l
 
 def bit (b : Bool) : String := if b then "1" else "0"
@@ -74,7 +85,7 @@ def runBits (v : Variant) (s : St) : List Who → String → St × String
 def showSt (s : St) (bits : String) : String :=
   let thr := joinOr (s.thr.map (fun t => kindStr t.kind ++ ":" ++ pcStr t.pc))
   -- the list is observable only while nobody is inside a critical section
-  let slots := if s.mutex.isSome then "locked" else joinOr (s.slots.map (fun x => s!"{x.msg}@{x.time}"))
+  let slots := if s.mutex.isSome then "locked" else joinOr ((sortPairs (s.slots.map (fun x => (x.msg, x.time)))).map (fun x => s!"{x.1}@{x.2}"))
   let disp := joinOr (s.dispatched.map (fun d => s!"{d.1.msg}@{d.1.time}/{d.2}"))
   let broken := joinOr ((sortDedup s.broken).map toString)
   let removed := joinOr ((sortDedup s.removed).map toString)
